@@ -11,9 +11,11 @@ import json
 import msgpack
 import cbor2 as cbor
 
-from typing import Any, Type, ClassVar
+from typing import Any, Type, ClassVar, Union, get_origin, get_args
+from types import UnionType
 from collections.abc import Callable
-from dataclasses import dataclass, astuple, asdict, fields, field, InitVar
+from dataclasses import (dataclass, astuple, asdict, fields, field, InitVar,
+                         is_dataclass)
 
 from ..hioing import HierError
 from .helping import NonStringIterable
@@ -49,6 +51,14 @@ def datify(cls, d):
         dat = getattr(cls, "_datify", None)
         if callable(dat):
             return dat(d)
+
+        if get_origin(cls) in (Union, UnionType):  # Optional[Dom] or Dom | None
+            for arg in get_args(cls):  # first dataclass member that accepts d
+                if is_dataclass(arg):
+                    dom = datify(arg, d)
+                    if isinstance(dom, arg):
+                        return dom
+            return d  # None or not a dataclass so leave as is
 
         fieldtypes = {f.name: f.type for f in fields(cls)}
         return cls(**{f: datify(fieldtypes[f], d[f]) for f in d})  # recursive
